@@ -25,6 +25,17 @@
 //!  written (local, parameter, return, template argument explicit / deduced / repeated / from a function / mentioned in the
 //!  instantiation, buffer element, member, global, cast, sizeof, array, method signature, typedef source, for-init) ×
 //!  placement (root, namespace, used from a sibling in the namespace)
+//!  e also: the other declaration of the shared name sits in a scope that has ENDED at the use (statement kind × part of the
+//!     statement holding the use: do-while / while / for condition, for increment, after for-init / block / if / switch, else
+//!     after then) × 13 entity kinds (11 global kinds, parameter, earlier local) × written form × type of the other
+//!     declaration (float / int) × names x, x_0 and `kernel` (reserved in Metal only); roles past-scope-end/<structure>
+//!  b, d, f also: every stage (compute, vertex, pixel, task, mesh) × entry function declared in a namespace / a nested namespace
+//!     × renamed name (function, namespace, outer namespace): variants entry-placement/…
+//!  g  every kind of bound resource (13) × placement (root, namespace, used in a function) × ALL four configurations (both
+//!     tiers) × plain names and representatives of every class of candidate words accepted as a global's name
+//!  the reflection data (reported binding names and their slots / types) is compared like the text in every space:
+//!     signatures use-rebound|binding-metadata|<target>, rename|alpha|binding-metadata|<target>; a reported entry point may be
+//!     a path from the root; use-rebound|entry-point-metadata|<target>|declared-in-namespace = reported by leaf name only
 //!
 //! One oracle ("pair oracle") serves all spaces: a baseline program B (distinctive unique names) and a renamed program R
 //! are compiled for one target; the emitted texts must be equal token by token outside tokens derived from the renamed
@@ -875,6 +886,8 @@ pub struct Out {
     pub text: String,
     pub tree: ast::Module,
     pub entry_points: Vec<String>,
+    /// the reflection data returned next to the text: (reported name, everything else about the binding), in reported order
+    pub bindings: Vec<(String, String)>,
 }
 
 pub enum Comp {
@@ -909,6 +922,17 @@ pub fn compile_out(src: &str, cfg: Cfg, mode: &Mode) -> Comp {
                 text: String::from_utf8_lossy(&p.data).to_string(),
                 tree,
                 entry_points: p.stages.iter().map(|s| s.entry_point.clone()).collect(),
+                bindings: p
+                    .metadata
+                    .bind_groups
+                    .iter()
+                    .enumerate()
+                    .flat_map(|(gi, g)| {
+                        g.bindings.iter().map(move |b| {
+                            (b.name.clone(), format!("group {} {:?} {:?} {:?} bindless={} static_sampler={}", gi, b.api_binding, b.descriptor_type, b.descriptor_count, b.is_bindless, b.static_sampler.is_some()))
+                        })
+                    })
+                    .collect(),
             }))
         }
     }
@@ -1240,7 +1264,8 @@ pub fn check_pair(p: &Pair, base_out: &Out, base_an: &An, base_accepted_by_front
 
     // 2. reserved words (our list of the target); space c is about collisions only
     let mut reserved_hit = false;
-    if p.strict != Strict::Exact && p.space != "c" {
+    //    and so is space e (capture of references; its names are plain, plus one word that gets a suffix in Metal)
+    if p.strict != Strict::Exact && p.space != "c" && p.space != "e" {
         let list = lists.of(p.cfg);
         let mut seen = BTreeSet::new();
         for (a, b) in &image {
@@ -1340,13 +1365,50 @@ pub fn check_pair(p: &Pair, base_out: &Out, base_an: &An, base_accepted_by_front
 
     // 4. the reported entry points name emitted functions
     for ep in &ren_out.entry_points {
-        let found = ar.scopes[0].decls.iter().any(|d| ar.decls[*d].kind == K::Function && ar.decls[*d].name == *ep);
+        // a reported name may be a path from the root (`N::f`): it is resolved through the emitted namespaces
+        let mut scope = Some(0usize);
+        let segs: Vec<&str> = ep.split("::").collect();
+        for seg in &segs[..segs.len() - 1] {
+            scope = scope.and_then(|s| ar.scopes[s].decls.iter().find(|d| ar.decls[**d].kind == K::Namespace && ar.decls[**d].name == *seg).and_then(|d| ar.decls[*d].inner));
+        }
+        let leaf = segs[segs.len() - 1];
+        let found = scope.map(|s| ar.scopes[s].decls.iter().any(|d| ar.decls[*d].kind == K::Function && ar.decls[*d].name == leaf)).unwrap_or(false);
         if !found {
+            // class: the name is that of a function the module declares inside a namespace (reported without its path) / of none
+            let elsewhere = ar.decls.iter().any(|d| d.kind == K::Function && d.name == *ep && d.scope != 0 && ar.scopes[d.scope].label.starts_with("namespace "));
             pending.push((
-                format!("use-rebound|entry-point-metadata|{}", tname),
+                format!("use-rebound|entry-point-metadata|{}{}", tname, if elsewhere { "|declared-in-namespace" } else { "" }),
                 format!("{} {:?}: the reported entry point `{}` is not the name of an emitted function (emitted functions: {})", p.role, p.map, ep, ar.scopes[0].decls.iter().filter(|d| ar.decls[**d].kind == K::Function).map(|d| ar.decls[*d].name.clone()).collect::<Vec<_>>().join(",")),
                 false,
             ));
+        }
+    }
+
+    // 4b. the reflection data is part of the output: the reported bindings are those of the baseline, and a binding reported
+    //     under a name derived from a renamed name carries the name that the text gives that entity (the image established
+    //     token by token above), i.e. it names the emitted declaration
+    //     (added after a seeded change that reported HLSL bindings under the source name was missed: only the text was compared)
+    if text_ok {
+        if base_out.bindings.len() != ren_out.bindings.len() || base_out.bindings.iter().zip(ren_out.bindings.iter()).any(|(x, y)| x.1 != y.1) {
+            pending.push((
+                format!("rename|alpha|binding-metadata|{}", tname),
+                format!("{} {:?}: the reported bindings differ in more than their names: baseline {:?} vs renamed {:?}", p.role, p.map, base_out.bindings, ren_out.bindings),
+                true,
+            ));
+        } else {
+            for (x, y) in base_out.bindings.iter().zip(ren_out.bindings.iter()) {
+                let expected: Option<&str> = if find_key(&x.0, p.map).is_none() { Some(x.0.as_str()) } else { image.get(x.0.as_str()).copied() };
+                if let Some(e) = expected {
+                    if e != y.0 {
+                        pending.push((
+                            format!("use-rebound|binding-metadata|{}", tname),
+                            format!("{} {:?}: the binding that the baseline reports as `{}` is reported as `{}` although the emitted text names that entity `{}` ({})", p.role, p.map, x.0, y.0, e, x.1),
+                            false,
+                        ));
+                        break;
+                    }
+                }
+            }
         }
     }
 
@@ -1763,6 +1825,88 @@ fn generator_name_templates() -> Vec<Tpl> {
     c("static-global", "static-const-attribute-argument", attr("static const int @ = 4;", "@"));
     c("static-global", "static-const-in-namespace-attribute-argument", attr("namespace Nh { static const int @ = 4; }", "Nh::@"));
     c("namespace", "holding-static-const-attribute-argument", attr("namespace @ { static const int hk = 4; }", "@::hk"));
+    v.extend(entry_placement_templates());
+    v
+}
+
+/// `src` with the function that starts at `marker` (up to its closing brace at the start of a line) put between `open` and `close`
+fn wrap_function(src: &str, marker: &str, open: &str, close: &str) -> String {
+    let start = src.find(marker).expect("marker");
+    let end = start + src[start..].find("\n}\n").expect("end of function") + 3;
+    format!("{}{}{}{}{}", &src[..start], open, &src[start..end], close, &src[end..])
+}
+
+/// every stage × where the entry function of that stage is declared (a namespace, a nested namespace; the root is covered by
+/// the role templates) × which name is renamed (the function, the namespace, the outer namespace): a pipeline names its entry
+/// points by their plain names wherever they are declared, and the exporters write uses of them on their own (stage wrappers,
+/// reported entry point names)
+/// (added after a seeded change that made the Metal stage wrapper call the entry function by its unqualified name was missed:
+/// every entry point of every program was declared at the root)
+fn entry_placement_templates() -> Vec<Tpl> {
+    let mut v = Vec::new();
+    let compute = "RWByteAddressBuffer ob;\n[numthreads(4, 1, 1)]\nvoid ENTRY(uint3 tid : SV_DispatchThreadID) {\n    ob.Store(0, (int)tid.x);\n}\nPipeline Pp { ComputeShader = ENTRY; }\n".to_string();
+    let vertex = "float4 ENTRY(uint hv : SV_VertexID) : SV_Position {\n    return float4(0, 0, 0, 1);\n}\nfloat4 hp() : SV_Target0 { return float4(0, 0, 0, 0); }\nPipeline Pp { VertexShader = ENTRY; PixelShader = hp; }\n".to_string();
+    let pixel = "float4 hv(uint hi : SV_VertexID) : SV_Position { return float4(0, 0, 0, 1); }\nfloat4 ENTRY() : SV_Target0 {\n    return float4(0, 0, 0, 0);\n}\nPipeline Pp { VertexShader = hv; PixelShader = ENTRY; }\n".to_string();
+    let mesh_base = mesh_program(&[], "", "DispatchMesh(4u, 1u, 1u, hl);", "SetMeshOutputCounts(64, 64);");
+    let task = mesh_base.replace("void ht(", "void ENTRY(").replace("TaskShader = ht", "TaskShader = ENTRY");
+    let mesh = mesh_base.replace("void hm(", "void ENTRY(").replace("MeshShader = hm", "MeshShader = ENTRY");
+    let stages: [(&str, String, &str); 5] = [
+        ("compute", compute, "[numthreads(4, 1, 1)]\nvoid ENTRY("),
+        ("vertex", vertex, "float4 ENTRY("),
+        ("pixel", pixel, "float4 ENTRY("),
+        ("task", task, "[numthreads(64, 1, 1)]\nvoid ENTRY("),
+        ("mesh", mesh, "[numthreads(64, 1, 1)]\n[outputtopology(\"triangle\")]\nvoid ENTRY("),
+    ];
+    for (stage, src, marker) in &stages {
+        // (placement, renamed, role, entry, inner namespace, outer namespace)
+        let forms: [(&str, &str, &'static str, &str, &str, Option<&str>); 5] = [
+            ("namespace", "function", "entry-point", "@", "Nh", None),
+            ("namespace", "namespace", "namespace", "he", "@", None),
+            ("nested-namespace", "function", "entry-point", "@", "Nh", Some("No")),
+            ("nested-namespace", "inner-namespace", "namespace", "he", "@", Some("No")),
+            ("nested-namespace", "outer-namespace", "namespace", "he", "Nh", Some("@")),
+        ];
+        for (placement, renamed, role, entry, inner, outer) in forms {
+            let (open, close) = match outer {
+                None => (format!("namespace {} {{\n", inner), "}\n".to_string()),
+                Some(o) => (format!("namespace {} {{ namespace {} {{\n", o, inner), "} }\n".to_string()),
+            };
+            let src = wrap_function(src, marker, &open, &close).replace("ENTRY", entry);
+            v.push(Tpl { role, variant: format!("entry-placement/{}/{}/{}", stage, placement, renamed), src, extra: false, deep: false, vocab: true });
+        }
+    }
+    v
+}
+
+/// space g: every kind of bound resource (something with an api slot) × placement
+fn resource_templates() -> Vec<Tpl> {
+    // (kind, declarations, int-valued use); `@` = the resource as declared, `#` = the resource as referred to
+    const KINDS: &[(&str, &str, &str)] = &[
+        ("byte-buffer", "ByteAddressBuffer @;", "(int)#.Load(0)"),
+        ("rw-byte-buffer", "RWByteAddressBuffer @;", "(int)#.Load(0)"),
+        ("buffer-address", "const BufferAddress @;", "(int)#.Load<uint>(0)"),
+        ("rw-buffer-address", "const RWBufferAddress @;", "(int)#.Load<uint>(0)"),
+        ("structured-buffer", "StructuredBuffer<int> @;", "#[0]"),
+        ("rw-structured-buffer", "RWStructuredBuffer<int> @;", "#[0]"),
+        ("typed-buffer", "Buffer<float4> @;", "(int)#.Load(0).x"),
+        ("rw-typed-buffer", "RWBuffer<float4> @;", "(int)#[0].x"),
+        ("texture", "Texture2D<float4> @;", "(int)#.Load(int3(0, 0, 0)).x"),
+        ("rw-texture", "RWTexture2D<float4> @;", "(int)#[uint2(0, 0)].x"),
+        ("constant-buffer-object", "struct Sc { int hm; };\nConstantBuffer<Sc> @;", "#.hm"),
+        ("sampler", "SamplerState @;\nTexture2D<float4> ht;", "(int)ht.SampleLevel(#, float2(0, 0), 0).x"),
+        ("two-buffer-addresses", "const BufferAddress hb;\nconst RWBufferAddress @;", "(int)hb.Load<uint>(0) + (int)#.Load<uint>(4)"),
+    ];
+    let mut v = Vec::new();
+    for (kind, decl, usage) in KINDS {
+        for placement in ["root", "namespace", "used-in-function"] {
+            let src = match placement {
+                "root" => prog(decl, &format!("int r = {};", usage.replace('#', "@"))),
+                "namespace" => prog(&format!("namespace Nh {{ {} }}", decl), &format!("int r = {};", usage.replace("ht.", "Nh::ht.").replace("hb.", "Nh::hb.").replace('#', "Nh::@"))),
+                _ => prog(&format!("{}\nint hf(int ha) {{ return ha + {}; }}", decl, usage.replace('#', "@")), "int r = hf(1);"),
+            };
+            v.push(Tpl { role: "global", variant: format!("resource/{}/{}", kind, placement), src, extra: false, deep: false, vocab: false });
+        }
+    }
     v
 }
 
@@ -1964,8 +2108,62 @@ fn shadow_cases() -> Vec<ShadowCase> {
             }
         }
     }
+    // the other declaration of the name sits in a scope that has ENDED where the use is written: the body of a loop whose
+    // condition / increment follows, a block / branch / loop before the using statement. Statement kind × part of the statement
+    // that holds the use × kind of the used entity (every global kind, a parameter and an earlier local of the using function)
+    // × written form × type of the other declaration (differs from / equals the type of the entity)
+    // (added after a seeded change that typed the condition of a do-while loop inside the scope of its body was missed: every
+    // nearer declaration of a shared name was in a scope that still was open at the use)
+    for &(structure, stmt) in PAST_STRUCTURES {
+        for &(kind, decl, val) in PAST_ENTS {
+            let refs: &[&str] = if decl.is_empty() { &["@1"] } else { &["@1", "::@1"] };
+            for r1 in refs {
+                for ty in ["float", "int"] {
+                    let near = format!("{ty} @2 = ({ty})ha; hr += (int)@2;");
+                    let body = stmt.replace("FORINIT", &format!("{ty} @2 = ({ty})0; @2 < ({ty})1; ++@2")).replace('S', &near).replace('V', &val.replace('#', r1));
+                    let (params, first, call) = match kind {
+                        "parameter" => ("int ha, int @1", String::new(), "hu(1, 2)"),
+                        "earlier-local" => ("int ha", "int @1 = ha + 1; ".to_string(), "hu(1)"),
+                        _ => ("int ha", String::new(), "hu(1)"),
+                    };
+                    let decls = format!("{}\nint hu({params}) {{ int hr = 0; {first}{body} return hr; }}", decl.replace('@', "@1"));
+                    v.push(ShadowCase { structure, label: format!("{} `{}` / {} local of the same name in the ended scope", kind, r1, ty), src: prog(&decls, &format!("int r = {};", call)), deep: false, equal_names_in_quick: true });
+                }
+            }
+        }
+    }
     v
 }
+
+/// entity kinds of the ended-scope structures: (kind, declaration with `@` = name, int-valued expression with `#` = reference)
+const PAST_ENTS: &[(&str, &str, &str)] = &[
+    ("function", "int @(int ha) { return ha + 1; }", "#(1)"),
+    ("static-global", "static int @ = 1;", "#"),
+    ("static-const-global", "static const int @ = 11;", "#"),
+    ("resource-global", "ByteAddressBuffer @;", "(int)#.Load(0)"),
+    ("cbuffer-member", "cbuffer Ch1 { int @; }", "#"),
+    ("struct", "struct @ { int hm1; };", "(int)sizeof(#)"),
+    ("enum", "enum @ { Ea1, Eb1 };", "(int)#::Eb1"),
+    ("enum-value", "enum Eh1 { @, Ez1 };", "(int)#"),
+    ("typedef", "typedef int @;", "(#)1"),
+    ("template-function", "template<typename Th> Th @(Th ha) { return ha + 1; }", "#<int>(1)"),
+    ("namespace", "namespace @ { int hq1(int ha) { return ha + 1; } }", "#::hq1(1)"),
+    ("parameter", "", "#"),
+    ("earlier-local", "", "#"),
+];
+
+/// (structure, statement(s)): `S` = declaration of the other entity (and a use of it), `V` = the int-valued use of the entity
+const PAST_STRUCTURES: &[(&str, &str)] = &[
+    ("past-scope-end/do-while-condition", "do { S hr += 1; } while (V + hr < 3);"),
+    ("past-scope-end/while-condition", "while (V + hr < 3) { S hr += 1; }"),
+    ("past-scope-end/for-condition", "for (int hi = 0; hi + V < 9; ++hi) { S }"),
+    ("past-scope-end/for-increment", "for (int hi = 0; hi < 9; hi += V) { S }"),
+    ("past-scope-end/after-for-init", "for (FORINIT) { hr += 1; } hr += V;"),
+    ("past-scope-end/after-block", "{ S } hr += V;"),
+    ("past-scope-end/else-after-then", "if (ha > 0) { S } else { hr += V; }"),
+    ("past-scope-end/after-if", "if (ha > 0) { S } hr += V;"),
+    ("past-scope-end/after-switch", "switch (ha) { case 0: { S } break; default: break; } hr += V;"),
+];
 
 /// signature class of a structure: one per kind of scope that holds the nearer declaration (one repair each)
 fn shadow_class(structure: &str) -> &'static str {
@@ -1975,6 +2173,7 @@ fn shadow_class(structure: &str) -> &'static str {
         "template-type-parameter" => "template-parameter",
         "qualified-from-root" | "qualified-from-sibling-namespace" | "qualified-from-enclosing-namespace" => "qualified-reference",
         "qualified-from-root-function-local" => "qualified-reference-next-to-variable",
+        s if s.starts_with("past-scope-end/") => "past-scope-end",
         _ => "local-or-parameter",
     }
 }
@@ -2397,11 +2596,14 @@ pub fn run(ctx: &Ctx) -> i32 {
         let role = match shadow_class(sc.structure) {
             "qualified-reference" => "qualified-reference-to-shared-leaf-name".to_string(),
             "qualified-reference-next-to-variable" => "qualified-reference-next-to-local-or-parameter".to_string(),
+            "past-scope-end" => sc.structure.to_string(),
             c => format!("shadowed-by-{}", c),
         };
         let note = format!("{}: {}", sc.structure, sc.label);
-        for n1 in &names_e {
-            for n0 in &names_e {
+        // the ended-scope structures also get a name that Metal reserves (rssl does not): both variables then carry generated names
+        let names_case: Vec<&str> = if sc.structure.starts_with("past-scope-end/") { names_e.iter().copied().chain(["kernel"]).collect() } else { names_e.clone() };
+        for n1 in &names_case {
+            for n0 in &names_case {
                 let names = [*n0, *n1];
                 if ctx.quick() && sc.equal_names_in_quick && n0 != n1 {
                     continue;
@@ -2529,6 +2731,72 @@ pub fn run(ctx: &Ctx) -> i32 {
         reps.insert(t.role, set);
     }
     lap("b: class representatives");
+
+    // ---- space g: every kind of bound resource × placement (root, namespace) × EVERY configuration (both tiers: the HLSL
+    // exporter declares and reads resources differently for Vulkan, and again when buffer addresses are supported: inline
+    // descriptor structs) × plain names (verbatim) and representatives of every class of candidate words the front end accepts
+    // as the name of a global (quick: 2 per class, thorough: every word outside the large uniform families plus 4 per class)
+    // (added after a seeded change that built the HLSL binding description from the source name was missed: it changes the text
+    // only for BufferAddress resources on Vulkan with buffer addresses, a configuration × resource kind no program had)
+    let g_cfgs = [Cfg::Dx, Cfg::Vk, Cfg::VkBa, Cfg::Msl];
+    let g_tpls = resource_templates();
+    let mut g_src: Vec<String> = Vec::new();
+    let mut g_bases: Vec<Vec<BaseLine>> = Vec::new();
+    for t in &g_tpls {
+        let src = t.src.replace('@', BASE);
+        let mut row = Vec::new();
+        for c in &g_cfgs {
+            let b = baseline(&src, *c, &mode);
+            if b.out.is_none() {
+                rep.acc.count(&format!("baseline_rejected|{}|{}|{}", t.role, t.variant, c.name()));
+            }
+            row.push(b);
+        }
+        g_bases.push(row);
+        g_src.push(src);
+    }
+    // (word, plain)
+    let mut g_words: Vec<(String, bool)> = PLAIN_NAMES.iter().take(ctx.pick(QUICK_PLAIN_NAMES_NEXT_TO_EXPORTER_NAMES, PLAIN_NAMES.len())).map(|w| (w.to_string(), true)).collect();
+    {
+        let mut per_class: BTreeMap<(&str, &str, &str), usize> = BTreeMap::new();
+        for w in &words {
+            let cat = lists.hlsl.get(w).or(lists.msl.get(w)).copied().unwrap_or("");
+            let family = matches!(cat, "type-name" | "intrinsic" | "object-type");
+            let class = (lists.hlsl.get(w).copied().unwrap_or("-"), lists.msl.get(w).copied().unwrap_or("-"), origin_of(w));
+            let full = per_class.get(&class).copied().unwrap_or(0) >= reps_per_class;
+            if full && (ctx.quick() || family) {
+                continue;
+            }
+            if matches!(compile_out(&g_tpls[0].src.replace('@', w), Cfg::Dx, &mode), Comp::Ok(_)) {
+                *per_class.entry(class).or_insert(0) += 1;
+                g_words.push((w.clone(), false));
+            }
+        }
+    }
+    let radices = [g_cfgs.len() as u64, g_tpls.len() as u64, g_words.len() as u64];
+    let rg = run_par(ctx, product(&radices), 16, |idx, acc| {
+        let mut d = Vec::new();
+        decode(idx, &radices, &mut d);
+        let (ci, ti) = (d[0] as usize, d[1] as usize);
+        let (cfg, t, (w, plain)) = (g_cfgs[ci], &g_tpls[ti], &g_words[d[2] as usize]);
+        let base = match &g_bases[ti][ci].out {
+            Some(o) => o,
+            None => return,
+        };
+        acc.evals += 1;
+        let ren = t.src.replace('@', w);
+        let map = [(BASE.to_string(), w.clone())];
+        let p = Pair { space: "g", role: t.role, base: &g_src[ti], ren: &ren, map: &map, strict: if *plain { Strict::Verbatim } else { Strict::Free }, cfg, mode: &mode, origin: if *plain { "plain" } else { origin_of(w) }, certified: false, note: &t.variant };
+        match check_pair(&p, &base.0, &base.1, g_bases[ti][ci].accepted, &lists, acc) {
+            Verdict::Outside => acc.count("g_word_not_accepted"),
+            _ => acc.count(&format!("g_checked|{}", cfg.name())),
+        }
+    });
+    rep.absorb("g_resource_kind_x_configuration_x_word", rg);
+    lap("g_resource_kind_x_configuration_x_word");
+    rep.cov("resource_templates_g", Json::Int(g_tpls.len() as i64));
+    rep.cov("words_g", Json::Arr(g_words.iter().map(|w| w.0.as_str().into()).collect()));
+
     let mut b_cases: Vec<(usize, usize)> = Vec::new();
     for (wi, w) in words.iter().enumerate() {
         let cat = lists.hlsl.get(w).or(lists.msl.get(w)).copied().unwrap_or("");
@@ -2653,6 +2921,7 @@ pub fn run(ctx: &Ctx) -> i32 {
     });
     rep.absorb("f_role_x_emitted_identifier_x_target", rf);
     lap("f_role_x_emitted_identifier_x_target");
+
     rep.cov("emitted_identifiers_f", Json::Int(f_vocabulary.len() as i64));
 
 
